@@ -59,6 +59,13 @@ def check(ctx, report):
     rejections.check(ctx, report, 'C15.R5', 'tls', only='cryptoparser/tls/extension.py',
                      title='extension parsers reject only what the specification tells them to (a refused extension silently becomes an unparsed one and drops out of the ja3 sections)')
     report.floor('C15.R4', 150, 'functions of the TLS hello / extension / code point modules')
+    # the numbers the sections print are the codes of the members the decoders hand out: the generic fixed width decoder (and every
+    # factory that overrides it) returns the member that carries the very code on the wire (evaluation shared with C10.R2)
+    report.rule('C15.R7', 'code point decoders behind the sections hand out the member whose code is the one on the wire')
+    from .c10 import decoders_by_evaluation, factory_overrides
+    decoders_by_evaluation(ctx, report, RULE='C15.R7')
+    factory_overrides(ctx, report, RULE='C15.R7')
+    report.floor('C15.R7', 100, 'evaluated code points')
     c = model.cls('TlsHandshakeClientHello')
     f = c.methods.get('ja3')
     if f is None:
